@@ -79,6 +79,11 @@ def Tempo.setTempo (T : Tempo) (v secs : Rat) : Tempo :=
   let beats := T.secs2beats secs
   { rate := v, dur := 1 / v, baseBeats := beats, baseSecs := T.beats2secs beats }
 
+/-- `etempo(v)`: the tempo changes at the physical present `now` (`main.elapsed_time()`); the beats
+elapsed so far are computed from the OLD base before the new tempo is stored. -/
+def Tempo.etempo (T : Tempo) (v now : Rat) : Tempo :=
+  { rate := v, dur := 1 / v, baseBeats := T.secs2beats now, baseSecs := now }
+
 /-- `prev_time = -1e10` when the queue is empty -/
 def sentinel : Rat := -10000000000
 
@@ -129,6 +134,7 @@ inductive Op where
   | sched (k : Rat) (t : Task)      -- `_sched_add(k, t)`
   | clear
   | setTempo (v secs : Rat)         -- `tempo = v` from a thread whose logical time is `secs`
+  | etempo (v now : Rat)            -- `etempo(v)` at physical time `now`
   | stop
 deriving Repr, DecidableEq
 
@@ -175,6 +181,8 @@ def Clock.applyOp (c : Clock) : Op → Option Clock
   | .clear => some c.clearAll.notify
   | .setTempo v secs =>
       if 0 < v then some ({ c with tempo := c.tempo.setTempo v secs }).notify else none   -- ValueError
+  | .etempo v now =>
+      if 0 < v then some ({ c with tempo := c.tempo.etempo v now }).notify else none   -- 0: ValueError; < 0 not modelled
   | .stop => some ({ c.clearAll with run := false }).notify
 
 /-- may the thread return from `wait` for this reason? -/
